@@ -36,6 +36,7 @@ CONSTANTS
     Chunks,             \* chunk sizes a subscriber may ask for
     EnableFlush,        \* family `durable`: MidFlush and Crash enabled
     EnablePrune,        \* family `prune`: Prune enabled
+    EnableValidated,    \* AddValidatedV2Blocks enabled (pre-validated v2 blocks above the require height)
     DevResubmitPruned,  \* deviation (finding C19-resubmit-pruned): AddBlocks re-stores a pruned
                         \* best-chain block without supplement and overwrites its state
     DevExpiryPrepend    \* deviation (finding C02-expiry-order): a revert PREPENDS the restored
@@ -200,6 +201,35 @@ Submit(batch) ==
             ELSE ret' = "ok" /\ pc' = Idle
     /\ UNCHANGED <<t, best, mem, led, dur, subs, notif, seen>>
 
+\* ---- AddValidatedV2Blocks (313-359): the caller (the syncer's instant sync) has validated the
+\* blocks; they are stored with an EMPTY v1 supplement and the caller's states, then the weight gate
+\* is applied to the last one.  Callable only for valid v2 blocks above the require height (an
+\* empty supplement is wrong for anything else).  A non-v2 block is refused AFTER the earlier
+\* blocks of the batch were stored.
+RECURSIVE ValLoop(_, _, _, _)
+ValLoop(batch, i, bk, st) ==
+    IF i > Len(batch) THEN [blk |-> bk, sta |-> st, err |-> "ok"]
+    ELSE LET b == batch[i] IN
+      IF ~T.v2[b] THEN [blk |-> bk, sta |-> st, err |-> "notv2"]
+      ELSE ValLoop(batch, i + 1, [bk EXCEPT ![b] = "supp"], [st EXCEPT ![b] = "full"])
+
+ValBatches == {q \in Batches : \A i \in 1..Len(q) : T.valid[q[i]] /\ H(q[i]) > ReqH /\ (i > 1 => Par(q[i]) = q[i - 1])}
+
+SubmitValidated(batch) ==
+    /\ pc.k = "idle"
+    /\ act' = [op |-> "SubmitV", batch |-> batch]
+    /\ IF sta[Par(batch[1])] = "none"
+         THEN ret' = "missingparent" /\ pc' = Idle /\ UNCHANGED <<blk, sta>>
+         ELSE LET r == ValLoop(batch, 1, blk, sta) last == batch[Len(batch)] IN
+              /\ blk' = r.blk
+              /\ sta' = r.sta
+              /\ IF r.err # "ok" THEN ret' = r.err /\ pc' = Idle
+                 ELSE IF Heavier(last, mem)
+                   THEN /\ pc' = [k |-> "reorg", rev |-> RevertList(mem, last), app |-> ApplyList(mem, last), old |-> mem, rb |-> FALSE, stepped |-> FALSE]
+                        /\ ret' = "pending"
+                   ELSE ret' = "ok" /\ pc' = Idle
+    /\ UNCHANGED <<t, best, mem, led, dur, subs, notif, seen>>
+
 \* ---- revertTip
 CanRevert == blk[mem] \in {"body", "supp"} /\ sta[Par(mem)] # "none"
 
@@ -324,8 +354,38 @@ Poll(s, max) ==
        /\ ret' = r.err
     /\ UNCHANGED <<t, blk, sta, best, mem, pc, led, dur, notif, seen>>
 
+\* ---- read-only queries the syncer relies on (History 160-184, Headers 189-206,
+\* BlocksForHistory 213-241); pure functions of the state, compared exactly in trace validation
+HistHeight(i) ==
+    LET tipH == Len(best) - 1
+        off  == IF i < 10 THEN i ELSE 7 + 2 ^ (i - 8)
+    IN IF off > tipH THEN 0 ELSE tipH - off
+HistoryIds == [i \in 1..32 |-> best[HistHeight(i - 1) + 1]]
+
+\* Headers(b, max): error unless b is on the best chain; else the next min(max, remaining) ids
+HeadersOf(b, max) ==
+    IF ~OnBest(b) THEN [err |-> "notbest", ids |-> <<>>, rem |-> 0]
+    ELSE LET tipH == Len(best) - 1
+             n == IF max < tipH - H(b) THEN max ELSE tipH - H(b)
+         IN [err |-> "ok", ids |-> SubSeq(best, H(b) + 2, H(b) + 1 + n), rem |-> tipH - (H(b) + n)]
+
+\* BlocksForHistory(hist, max): attach point = first id of hist that has a state and is on the best
+\* chain (else genesis); error if a needed body is pruned
+AttachOf(hist) ==
+    LET S == {i \in 1..Len(hist) : hist[i] # 0 /\ sta[hist[i]] # "none" /\ OnBest(hist[i])}
+    IN IF S = {} THEN 0 ELSE H(hist[CHOOSE i \in S : \A j \in S : i <= j])
+BlocksOf(hist, max) ==
+    LET a == AttachOf(hist)
+        tipH == Len(best) - 1
+        n == IF max < tipH - a THEN max ELSE tipH - a
+        ids == SubSeq(best, a + 2, a + 1 + n)
+    IN IF \E i \in 1..Len(ids) : blk[ids[i]] \notin {"body", "supp"}
+         THEN [err |-> "missing", ids |-> <<>>, rem |-> 0]
+         ELSE [err |-> "ok", ids |-> ids, rem |-> tipH - (a + n)]
+
 Next ==
     \/ \E batch \in Batches : Submit(batch)
+    \/ (EnableValidated /\ \E batch \in ValBatches : SubmitValidated(batch))
     \/ RevertStep \/ ApplyStep \/ FailReorg \/ PanicStep \/ FinishReorg
     \/ MidFlush \/ Crash
     \/ \E h \in 0..(T.maxH + 2) : Prune(h)
@@ -354,7 +414,7 @@ NeverPanics == ret # "panic"
 CallEnds == pc.k = "reorg" /\ pc'.k = "idle" /\ act'.op # "Crash"
 TipMovesOnlyIfHeavier == [][CallEnds /\ mem' # pc.old => Heavier(mem', pc.old) /\ ret' = "ok"]_vars
 FailureIsNoop == [][CallEnds /\ ret' # "ok" => mem' = pc.old /\ best' = PathTo(pc.old)]_vars
-HeaderLoopMovesNothing == [][act'.op = "Submit" => best' = best /\ mem' = mem /\ led' = led]_vars
+HeaderLoopMovesNothing == [][act'.op \in {"Submit", "SubmitV"} => best' = best /\ mem' = mem /\ led' = led]_vars
 WorkNeverLost == [][CallEnds => (mem' = pc.old \/ Heavier(mem', pc.old))]_vars
 \* a submission whose adoption would need a non-ok block ends in an error
 ErrIffNeeded == [][CallEnds /\ ~pc.rb /\ ret' = "ok" => \A i \in 1..Len(best') : Cls(best'[i]) = "ok"]_vars
@@ -387,6 +447,9 @@ NotifyOnlyIfMoved == [][notif' # notif /\ act'.op # "Init" => CallEnds /\ mem' #
 MovedImpliesNotify == [][CallEnds /\ mem' # pc.old /\ ret' = "ok" => notif' = notif + 1]_vars
 \* liveness: a subscriber that keeps polling while no blocks arrive reaches the tip
 CatchUp == \A s \in Subs : <>[](pc.k = "idle") => <>(subs[s] = mem)
+
+\* the history sample always starts at the tip and only names best-chain blocks
+HistoryOnBest == pc.k = "idle" => HistoryIds[1] = Tip /\ \A i \in 1..32 : OnBest(HistoryIds[i])
 
 (* C19 *)
 PruneOnlyOldBodies ==
